@@ -13,7 +13,7 @@ SPEC = {
              'that gate\'s predicate in the same event; no entry into a device whose input was blocked before and '
              'after the event; sinks collect in arrival order; idle-longest rule judged for direct plain '
              'single-slot candidates when unambiguous; a case is one model; non-trivial = a part left a group '
-             'and a hand-over was refused somewhere before succeeding'),
+             'and a hand-over was refused somewhere before succeeding; also: the idle-longest rule through plain pass-through devices and restarting at restoration, decimal and near-tie fan-out models, flag predicates edited in place, rework loops, refused connection changes, shutdown callbacks that fail once'),
     'floors': {'quick': {'histories_validated': 20000, 'group_exits': 300, 'idle_longest_judged': 1000,
                          'gate_passages_checked': 1000, 'collected_lists_checked': 5000},
                'thorough': {'histories_validated': 400000, 'group_exits': 6000, 'idle_longest_judged': 20000,
